@@ -727,6 +727,7 @@ func (c *Ctx) RuleResolve() *Result {
 		res.Instances++
 		key := load.FnName(fn) + ":stored root"
 		okSet := false
+		earlyExit := ""
 		allInstrs(fn, func(in ssa.Instruction) {
 			st, ok := in.(*ssa.Store)
 			if !ok || st.Addr != ssa.Value(fn.Params[0]) {
@@ -753,9 +754,27 @@ func (c *Ctx) RuleResolve() *Result {
 			}
 			// the search function probes for "regex-assembly" with os.Stat
 			hasStat, hasConst := false, false
+			var callsStat func(f *ssa.Function, d int) bool
+			callsStat = func(f *ssa.Function, d int) bool {
+				found := false
+				allInstrs(f, func(in3 ssa.Instruction) {
+					if c3, ok := in3.(*ssa.Call); ok {
+						if isFn(staticCallee(&c3.Call), "os", "Stat") || isFn(staticCallee(&c3.Call), "os", "Lstat") {
+							found = true
+						} else if g := staticFn(&c3.Call); g != nil && c.P.IsRepoFn(g) && d < 2 && callsStat(g, d+1) {
+							found = true
+						}
+					}
+				})
+				return found
+			}
 			allInstrs(sf, func(in2 ssa.Instruction) {
-				if c2, ok := in2.(*ssa.Call); ok && isFn(staticCallee(&c2.Call), "os", "Stat") {
-					hasStat = true
+				if c2, ok := in2.(*ssa.Call); ok {
+					if isFn(staticCallee(&c2.Call), "os", "Stat") {
+						hasStat = true
+					} else if g := staticFn(&c2.Call); g != nil && c.P.IsRepoFn(g) && callsStat(g, 0) {
+						hasStat = true
+					}
 				}
 				for _, op := range in2.Operands(nil) {
 					if op != nil && *op != nil {
@@ -771,10 +790,30 @@ func (c *Ctx) RuleResolve() *Result {
 					okSet = true
 				}
 			}
+			// the upward loop is left only by its own condition (the file-system root) or with a hit
+			for _, l := range naturalLoops(sf) {
+				for blk := range l.body {
+					for _, succ := range blk.Succs {
+						if l.body[succ] || blk == l.header {
+							continue
+						}
+						okExit := false
+						if r, ok := succ.Instrs[len(succ.Instrs)-1].(*ssa.Return); ok && len(r.Results) == 2 && isNilConst(r.Results[1]) {
+							okExit = true
+						}
+						if c.Loud().BlockDies(succ) {
+							okExit = true
+						}
+						if !okExit {
+							earlyExit = c.P.InstrPos(blk.Instrs[len(blk.Instrs)-1])
+						}
+					}
+				}
+			}
 		})
-		if okSet {
-			// the search returns at the first hit: from the success edge of the probe no further probe is made
-			allInstrs(fn, func(in ssa.Instruction) {})
+		if okSet && earlyExit != "" {
+			res.bad(key, c.P.FnPos(fn), "the upward search for the directory containing regex-assembly can be left at "+earlyExit+" without a hit and before the file-system root is reached: the root is the nearest ancestor that contains regex-assembly, whatever lies in between (a .git directory of a plugin or submodule, a marker file)")
+		} else if okSet {
 			res.ok(key, c.P.FnPos(fn), "*w = search(filepath.Abs(value)), the search probes for regex-assembly with os.Stat")
 		} else {
 			res.bad(key, c.P.FnPos(fn), "the -d flag does not store the result of the upward search for the directory containing regex-assembly")
